@@ -65,12 +65,12 @@ func TestC19(t *testing.T) {
 			}
 			return r.Final
 		}
-		s := settle(do(s0, evb("setTemplate", edsKey, "B")))                                              // canary B runs on one node
+		s := settle(do(s0, evb("setTemplate", edsKey, "B")))                                            // canary B runs on one node
 		s = do(do(s, evb("kubectl", edsKey, "canary-fail")), evb("kubectl", edsKey, "canary-validate")) // failed, validated at once
-		s = settle(s)                                                                                     // B is active everywhere
-		s = settle(do(s, evb("setTemplate", edsKey, "C")))                                                // canary C runs
-		s = do(do(s, evb("kubectl", edsKey, "canary-validate")), ev("R_eds", edsKey))                     // C promoted, B still has pods
-		s = do(do(s, evb("setTemplate", edsKey, "B")), ev("R_eds", edsKey))                               // B is the canary again
+		s = settle(s)                                                                                   // B is active everywhere
+		s = settle(do(s, evb("setTemplate", edsKey, "C")))                                              // canary C runs
+		s = do(do(s, evb("kubectl", edsKey, "canary-validate")), ev("R_eds", edsKey))                   // C promoted, B still has pods
+		s = do(do(s, evb("setTemplate", edsKey, "B")), ev("R_eds", edsKey))                             // B is the canary again
 		return s
 	}
 	type st struct {
